@@ -19,6 +19,8 @@ type Layout struct {
 	CmdSpaces  bool // extra spaces inside << >>
 	IndentIf   bool // indent the bodies of if clauses
 	TrailingCm bool // trailing // comments
+	ExtraHead  bool // file-level hashtags before the first node, blank / comment lines in front of headers
+	NoFinalNL  bool // no line end after the last ===
 	rnd        *rand.Rand
 }
 
@@ -36,6 +38,8 @@ func randomLayout(rnd *rand.Rand) *Layout {
 		CmdSpaces:  rnd.Intn(2) == 0,
 		IndentIf:   rnd.Intn(2) == 0,
 		TrailingCm: rnd.Intn(3) == 0,
+		ExtraHead:  rnd.Intn(3) == 0,
+		NoFinalNL:  rnd.Intn(4) == 0,
 		rnd:        rand.New(rand.NewSource(rnd.Int63())),
 	}
 	if rnd.Intn(3) > 0 {
@@ -46,7 +50,8 @@ func randomLayout(rnd *rand.Rand) *Layout {
 
 func (l *Layout) describe() map[string]any {
 	return map[string]any{"tabs": l.Tabs, "unit": l.Unit, "junk": l.JunkProb > 0, "crlf": l.CRLF, "spelling": l.Spelling,
-		"parens": l.Parens, "cmdspaces": l.CmdSpaces, "indentif": l.IndentIf, "trailing": l.TrailingCm}
+		"parens": l.Parens, "cmdspaces": l.CmdSpaces, "indentif": l.IndentIf, "trailing": l.TrailingCm,
+		"extrahead": l.ExtraHead, "nofinalnl": l.NoFinalNL}
 }
 
 func (l *Layout) nl() string {
@@ -241,7 +246,7 @@ func (r *renderer) parts(parts []Part) string {
 		if p.E != nil {
 			sb.WriteString("{" + r.l.expr(p.E) + "}")
 		} else {
-			sb.WriteString(p.Lit)
+			sb.WriteString(p.source())
 		}
 	}
 	return sb.String()
@@ -375,8 +380,19 @@ func (r *renderer) stmt(s Stmt, d int) {
 func renderNodes(c *Case, l *Layout, from, to int) string {
 	var sb strings.Builder
 	r := &renderer{c: c, l: l, sb: &sb}
+	if l.ExtraHead && l.rnd.Intn(2) == 0 {
+		// file-level hashtags precede all nodes of a file
+		sb.WriteString("#file_tag" + l.nl())
+		if l.rnd.Intn(2) == 0 {
+			sb.WriteString("#another:tag" + l.nl())
+		}
+	}
 	for i := from; i < to; i++ {
 		n := c.Nodes[i]
+		if l.ExtraHead && l.rnd.Intn(2) == 0 {
+			r.junk() // blank / comment lines between nodes and in front of the headers
+		}
+		// (extra headers such as `position:` are content of the parsed dialogue - Node.Headers - not layout)
 		sb.WriteString("title: " + n.Title + l.nl())
 		if n.Tracking != "" {
 			sb.WriteString("tracking: " + n.Tracking + l.nl())
@@ -384,7 +400,10 @@ func renderNodes(c *Case, l *Layout, from, to int) string {
 		sb.WriteString("---" + l.nl())
 		r.body(n.Body, 0)
 		r.junk()
-		sb.WriteString("===" + l.nl())
+		sb.WriteString("===")
+		if !(l.NoFinalNL && i == to-1) {
+			sb.WriteString(l.nl())
+		}
 	}
 	return sb.String()
 }
